@@ -798,6 +798,11 @@ type Data struct {
 
 	metadata   map[Schema][]byte
 	metadataMu sync.RWMutex
+
+	// Serializes annotation writes: a POST reads the stored annotation, merges the posted fields and writes the result
+	// to the in-memory db and the store; a DELETE removes it from both.  Without it two updates of one body lose
+	// fields and the in-memory db can end up different from the store.
+	writeMu sync.Mutex
 }
 
 // IsMutationRequest overrides the default behavior to specify POST /query as an immutable
@@ -1420,6 +1425,8 @@ func (d *Data) storeAndUpdate(ctx *datastore.VersionedCtx, keyStr string, newDat
 	if err != nil {
 		return err
 	}
+	d.writeMu.Lock()
+	defer d.writeMu.Unlock()
 	dvid.VerifPoint("yield:neuronjson.storeAndUpdate:entry")
 
 	// get original data so we can handle default update and tell which values change for _user/_time fields.
@@ -1586,6 +1593,8 @@ func (d *Data) DeleteData(ctx storage.VersionedCtx, keyStr string) error {
 	if err != nil {
 		return err
 	}
+	d.writeMu.Lock()
+	defer d.writeMu.Unlock()
 	dvid.VerifPoint("yield:neuronjson.DeleteData:entry")
 	mdb, found := d.getMemDBbyVersion(ctx.VersionID())
 	if found {
